@@ -70,6 +70,12 @@ func cmdTTLRun(args []string) int {
 	_, ok6 := create(6, "custom-resource-of-group-events.example.io")
 	_, ok7 := create(7, "resource-eventsinks")
 	expect("setup: six creates succeed", ok1 && ok2 && ok3 && ok5 && ok6 && ok7)
+	// an Event that is created, deleted and created again before any compaction: the second create goes over the
+	// tombstoned index record (compare-and-swap path of the creator)
+	r4, ok4 := create(4, "event-3")
+	d4, derr := env.B.Delete(ctx, &proto.DeleteRequest{Key: env.Keys.Raw(4), Revision: r4})
+	_, ok4b := create(4, "event-3-again")
+	expect("setup: an Event is created, deleted and created again", ok4 && derr == nil && d4.Succeeded && ok4b)
 	time.Sleep(300 * time.Millisecond)
 	u, uerr := env.B.Update(ctx, &proto.UpdateRequest{Kv: &proto.KeyValue{Key: env.Keys.Raw(3), Value: []byte("event-2-updated"), Revision: r3}})
 	expect("setup: guarded update of the second Event succeeds", uerr == nil && u.Succeeded)
@@ -101,6 +107,10 @@ func cmdTTLRun(args []string) int {
 		_, okc := create(3, "event-2-new")
 		expect("the wholly expired rewritten Event can be created again", okc)
 	}
+	p, _ = present(4)
+	expect("an Event re-created over its tombstone reads as absent once older than the TTL", !p)
+	_, okr4 := create(4, "event-3-third")
+	expect("... and is gone wholly: it can be created again (no index record left behind)", okr4)
 	_, okr := create(2, "event-1-again")
 	expect("an expired Event can be created again", okr)
 	p, _ = present(2)
@@ -124,7 +134,7 @@ func cmdTTLRun(args []string) int {
 			done = true
 		}
 	}
-	expect("expiry produces no watch event", deletes == 0)
+	expect("expiry produces no watch event (the only DELETE event is the one explicit delete of the scenario)", deletes == 1)
 	w, err := os.Create(*out)
 	if err != nil {
 		fmt.Println(err)
